@@ -180,9 +180,17 @@ func parseBody(data []byte, trex *mp4.TrexBox, dec *decryptor) (bo bodyObs) {
 			bo.Chunks[len(bo.Chunks)-1].End = off + sz
 			start = -1
 		default:
+			// any other box (emsg, prft, ...) travels with the chunk that follows it; it is logged, not judged:
+			// the property speaks about samples and timing
+			if start < 0 {
+				start = off
+			}
 			bo.Extra = append(bo.Extra, c.Type())
 		}
 		off += sz
+	}
+	if start >= 0 && nstyp == 0 && len(bo.Chunks) > 0 && bo.Chunks[len(bo.Chunks)-1].End != 0 {
+		bo.Chunks[len(bo.Chunks)-1].End = off // boxes after the last mdat belong to the last chunk
 	}
 	if off != len(data) {
 		bo.Err = fmt.Sprintf("boxes cover %d of %d bytes", off, len(data))
